@@ -82,6 +82,7 @@ PHYS_QUICK = [
     ('phys_plant_profiles', dict(T=4, heat=False, fuel=False, mr=0, md=0, tar=0, tao=1, ramp=True, sr=([1, 2], [1.5, 2.5]), sdr=([1], [2]))),
     ('phys_plant_quarter_hour_running', dict(T=3, heat=False, fuel=True, mr=0, md=0, tar=1, tao=0, ramp=True, last='sym', freq='15min')),
     ('phys_plant_profiles_lower_bounds_only_quarter_hours', dict(T=4, heat=False, fuel=False, mr=0, md=0, tar=0, tao=1, ramp=True, sr=([1, 2], [1, 2]), sdr=([1], [1]), lower_only=True, freq='15min', ramp_freq='15min')),
+    ('phys_plant_shutdown_profile_into_a_step_of_lower_capacity', dict(T=4, heat=False, fuel=False, mr=0, md=0, tar=2, tao=0, ramp=True, last='sym', sdr=([1, 1.5], [2, 2.5]), maxcap_ts=[3.0, 3.0, 3.0, 1.25])),
     ('phys_plant_profiles_mincap_series', dict(T=4, heat=False, fuel=False, mr=0, md=0, tar=0, tao=1, ramp=False, sr=([1, 2], [1.5, 2.5]), mincap_ts=True)),
     # profiles as long as / longer than the horizon (rolling or split optimisation with short intervals)
     ('phys_plant_profiles_longer_than_horizon', dict(T=2, heat=False, fuel=False, mr=0, md=0, tar=0, tao=1, ramp=True, sr=([1, 2, 2.5], [1.5, 2.5, 3]), sdr=([1, 2, 2.5], [2, 3, 3.5]))),
@@ -105,7 +106,7 @@ PHYS_THOROUGH = PHYS_QUICK + [
 
 # ------------------------------------------------------------------------------------------------ helpers
 def build_plant(D, T, heat, fuel, mr, md, tar, tao, ramp=False, last=None, cf=None, sr=None, sdr=None, start_costs=True,
-                min_zero=False, portfolio=False, freq='h', mincap_ts=False, unit='h', ramp_freq=None, lower_only=False):
+                min_zero=False, portfolio=False, freq='h', mincap_ts=False, unit='h', ramp_freq=None, lower_only=False, maxcap_ts=False):
     eao = lift.import_eao()
     tg = shapes.grid(T, freq, unit)
     names = ['P'] + (['H'] if heat else []) + (['G'] if fuel else [])
@@ -128,12 +129,31 @@ def build_plant(D, T, heat, fuel, mr, md, tar, tao, ramp=False, last=None, cf=No
         if D.symbolic:
             for v in mincaps:
                 D.assume(v <= lift.ctor_arg(pl, 'max_cap'))
+    maxcaps = None
+    if maxcap_ts:
+        # time-dependent maximum capacity (a column of the price data): at least the minimum capacity in every step and at least the profile
+        # bounds in every step but the last one -- the capacity of a step in which the plant is off must not matter (a plant that has followed
+        # its shutdown profile is off in the last step, whatever the capacity there)
+        # (given as a list: concrete capacities -- the attainability obligations quantify existentially over the parameters, so a capacity that
+        #  must be small in one particular step is fixed by the case)
+        maxcaps = np.array(maxcap_ts, dtype=float) if isinstance(maxcap_ts, (list, tuple)) else D.arr('maxcap', T, lo_strict=0)
+        mn_ = lift.ctor_arg(pl, 'min_cap')
+        pl.max_cap = 'maxcap'
+        if D.symbolic:
+            for t_, v in enumerate(maxcaps):
+                concrete = not isinstance(v, Sym)
+                D.assume(mn_ <= (float(v) if concrete else v))
+                for prof in (sr, sdr):
+                    if prof is not None and t_ < T - 1 and not concrete:
+                        D.assume(v >= max(prof[1]))
     for prof in (sr, sdr):
-        if prof is not None and D.symbolic:
+        if prof is not None and D.symbolic and not maxcap_ts:
             D.assume(lift.ctor_arg(pl, 'max_cap') >= max(prof[1]))      # profile bounds lie within the capacity range (documented meaning of a ramp profile)
     prices = {'p': D.arr('p', T)}
     if mincaps is not None:
         prices['mincap'] = mincaps
+    if maxcaps is not None:
+        prices['maxcap'] = maxcaps
     return pl, tg, prices, nds
 
 
@@ -286,12 +306,12 @@ def run_pattern(rec, seed, T, mr, md, tar, tao, heat, start_costs, pgrid=None):
 
 
 def run_physics(rec, seed, T, heat, fuel, mr, md, tar, tao, ramp, last=None, cf=None, sr=None, sdr=None, start_costs=True,
-                min_zero=False, level='A', freq='h', mincap_ts=False, ramp_freq=None, lower_only=False):
+                min_zero=False, level='A', freq='h', mincap_ts=False, ramp_freq=None, lower_only=False, maxcap_ts=False):
     eao = lift.import_eao()
 
     def build(D):
         pl, tg, prices, nds = build_plant(D, T, heat, fuel, mr, md, tar, tao, ramp=ramp, last=last, cf=cf, sr=sr, sdr=sdr,
-                                          start_costs=start_costs, min_zero=min_zero, freq=freq, mincap_ts=mincap_ts, ramp_freq=ramp_freq, lower_only=lower_only)
+                                          start_costs=start_costs, min_zero=min_zero, freq=freq, mincap_ts=mincap_ts, ramp_freq=ramp_freq, lower_only=lower_only, maxcap_ts=maxcap_ts)
         assets = [pl, shapes.mk_market(D, 'mP', nds[0], T, 'p')]
         k = 1
         if heat:
@@ -347,11 +367,11 @@ def run_physics(rec, seed, T, heat, fuel, mr, md, tar, tao, ramp, last=None, cf=
         has_sd = ('bool_shutdown', None) in ix
         shut = [xs[ix[('bool_shutdown', None)][t]] for t in range(T)] if has_sd else None
         mn_t = [zl(v) for v in prices['mincap']] if mincap_ts else [zl((pl.min_cap if isinstance(pl.min_cap, str) else lift.ctor_arg(pl, 'min_cap')))] * T
-        mx = zl(lift.ctor_arg(pl, 'max_cap'))
+        mx_t = [zl(v) for v in prices['maxcap']] if maxcap_ts else [zl(lift.ctor_arg(pl, 'max_cap'))] * T
         k_sr = len(sr[0]) if sr else 0
         k_sd = len(sdr[0]) if sdr else 0
         info0 = dict(kind='physics', T=T, heat=heat, fuel=fuel)
-        rec.twin(P + '/cap', assume, virt[0] == mx * dtv[0] + 1)
+        rec.twin(P + '/cap', assume, virt[0] == mx_t[0] * dtv[0] + 1)
 
         def in_profile(t):
             """z3 condition: step t belongs to a start or shutdown profile"""
@@ -369,10 +389,10 @@ def run_physics(rec, seed, T, heat, fuel, mr, md, tar, tao, ramp, last=None, cf=
             if has_on:
                 rec.prove(P + '/off_zero/%d' % t, assume, z3.Implies(on[t] == 0, virt[t] == 0), form='Q1', info=dict(info0, ob='off_zero', t=t))
                 normal = z3.And(on[t] == 1, z3.Not(in_profile(t)))
-                rec.prove(P + '/on_range/%d' % t, assume, z3.Implies(normal, z3.And(virt[t] >= mn_t[t] * dtv[t], virt[t] <= mx * dtv[t])),
+                rec.prove(P + '/on_range/%d' % t, assume, z3.Implies(normal, z3.And(virt[t] >= mn_t[t] * dtv[t], virt[t] <= mx_t[t] * dtv[t])),
                           form='Q1', info=dict(info0, ob='on_range', t=t))
             else:
-                rec.prove(P + '/range/%d' % t, assume, z3.And(virt[t] >= mn_t[t] * dtv[t], virt[t] <= mx * dtv[t]), form='Q1',
+                rec.prove(P + '/range/%d' % t, assume, z3.And(virt[t] >= mn_t[t] * dtv[t], virt[t] <= mx_t[t] * dtv[t]), form='Q1',
                           info=dict(info0, ob='on_range', t=t))
             # profile bounds
             for j in range(k_sr):
@@ -529,7 +549,7 @@ def observe(case, kwargs, env, rq):
     T, heat, fuel = kw['T'], kw['heat'], kw['fuel']
     pl, tg, prices, nds = build_plant(D, T, heat, fuel, kw['mr'], kw['md'], kw['tar'], kw['tao'], ramp=kw.get('ramp'), last=kw.get('last'),
                                       cf=kw.get('cf'), sr=kw.get('sr'), sdr=kw.get('sdr'), start_costs=kw.get('start_costs', True),
-                                      min_zero=kw.get('min_zero', False), freq=kw.get('freq', 'h'), mincap_ts=kw.get('mincap_ts', False), ramp_freq=kw.get('ramp_freq'), lower_only=kw.get('lower_only', False))
+                                      min_zero=kw.get('min_zero', False), freq=kw.get('freq', 'h'), mincap_ts=kw.get('mincap_ts', False), ramp_freq=kw.get('ramp_freq'), lower_only=kw.get('lower_only', False), maxcap_ts=kw.get('maxcap_ts', False))
     kw.pop('level', None)
     assets = [pl, shapes.mk_market(D, 'mP', nds[0], T, 'p')]
     k = 1
@@ -544,7 +564,7 @@ def observe(case, kwargs, env, rq):
     o = dict(problem=obs.problem_obs(op), output=obs.output_obs(out))
     if rq.get('kind') == 'replay':
         cfp = lift.ctor_arg(pl, 'conversion_factor_power_heat') if heat else 0.0
-        o['par'] = dict(min=([float(v) for v in prices['mincap']] if kw.get('mincap_ts') else [float((pl.min_cap if isinstance(pl.min_cap, str) else lift.ctor_arg(pl, 'min_cap')))] * T), max=float(lift.ctor_arg(pl, 'max_cap')), ramp=(float(lift.ctor_arg(pl, 'ramp')) if lift.ctor_arg(pl, 'ramp') is not None else None),
+        o['par'] = dict(min=([float(v) for v in prices['mincap']] if kw.get('mincap_ts') else [float((pl.min_cap if isinstance(pl.min_cap, str) else lift.ctor_arg(pl, 'min_cap')))] * T), max=([float(v) for v in prices['maxcap']] if kw.get('maxcap_ts') else [float(lift.ctor_arg(pl, 'max_cap'))] * T), ramp=(float(lift.ctor_arg(pl, 'ramp')) if lift.ctor_arg(pl, 'ramp') is not None else None),
                         last=float(lift.ctor_arg(pl, 'last_dispatch')), cf=([float(v) for v in cfp['values']] if isinstance(cfp, dict) else [float(cfp)] * T),
                         share=float(lift.ctor_arg(pl, 'max_share_heat')) if heat else None, dt=[float(v) for v in tg.dt],
                         fe=float(lift.ctor_arg(pl, 'fuel_efficiency')) if fuel else None, cio=float(lift.ctor_arg(pl, 'consumption_if_on')) if fuel else None,
@@ -600,13 +620,13 @@ def judge(case, kwargs, cand, ans):
     st = [x[ix[('bool_start', None)][t]] for t in range(T)] if ('bool_start', None) in ix else None
     sd = [x[ix[('bool_shutdown', None)][t]] for t in range(T)] if ('bool_shutdown', None) in ix else None
     ob = info.get('ob'); t = info.get('t')
-    tol = 1e-6 * max(1.0, par['max'])
+    tol = 1e-6 * max([1.0] + list(par['max']))
     tar = kwargs.get('tar', 0)
     if ob == 'off_zero':
         return (on[t] < 0.5 and abs(virt[t]) > tol), 'step %d: off but virtual output %.6g' % (t, virt[t])
     if ob == 'on_range':
-        bad = (on is None or on[t] > 0.5) and (virt[t] < par['min'][t] * dt[t] - tol or virt[t] > par['max'] * dt[t] + tol)
-        return bad, 'step %d: on with virtual output %.6g outside [%.6g, %.6g]' % (t, virt[t], par['min'][t] * dt[t], par['max'] * dt[t])
+        bad = (on is None or on[t] > 0.5) and (virt[t] < par['min'][t] * dt[t] - tol or virt[t] > par['max'][t] * dt[t] + tol)
+        return bad, 'step %d: on with virtual output %.6g outside [%.6g, %.6g]' % (t, virt[t], par['min'][t] * dt[t], par['max'][t] * dt[t])
     if ob == 'heat_share':
         return heatv[t] > par['share'] * power[t] + tol, 'step %d: heat %.6g > share*power %.6g' % (t, heatv[t], par['share'] * power[t])
     if ob == 'ramp':
